@@ -1,20 +1,24 @@
 """Spec-level folds over lists of symbolic length (SymList).
 
-A prefix sum  F(i) = sum_{k < i} term(k)  is represented by an uninterpreted function F : Int -> Int with
+A prefix sum  F(i) = sum_{k < i} term(k)  over one version of a list is an uninterpreted function F : Int -> Int with
   * F(0) = 0,
   * the unfolding  F(i+1) = F(i) + term(i)  instantiated for every element index the execution touches,
-  * instances of the monotonicity lemma  i <= j  ->  F(i) <= F(j)  for every pair of touched indices.
-The lemma itself is proved by induction on j: its base and step are emitted as verification conditions
-(`lemma.<name>.*`, discharged by the solver like every other obligation); the induction schema over the naturals
-is applied outside the solver and is listed as the one meta-level assumption of this module."""
+  * instances of the monotonicity lemma  i <= j  ->  F(i) <= F(j)  for every pair of touched indices,
+  * for a list that was modified at index p (append: p = old length; store: p = the index): instances of the
+    prefix-agreement lemma  i <= p  ->  F_new(i) = F_old(i).
+PrefixConcat is the same for string concatenation (monotonicity = "is a prefix of", length tied to a PrefixSum).
+The lemmas are proved by induction: base and step are emitted as verification conditions (`lemma.<fold>.*`,
+discharged by the solver like every other obligation); the induction schema over the naturals is applied outside
+the solver and is listed as the one meta-level assumption of this module."""
+import hashlib
+
 import z3
 
-from .explore import VC
-from .values import SInt, SymList, mk_int, to_zint, is_intlike
-from .explore import Unsupported
+from .explore import VC, Unsupported
+from .values import SInt, SStr, Sq, SBool, SymList, ListView, MapSym, to_zint, is_intlike
 
-INDUCTION_NOTE = ("induction schema over the naturals, applied outside the solver to the lemmas lemma.*.mono_* "
-                  "(base and step are discharged obligations)")
+INDUCTION_NOTE = ("induction schema over the naturals, applied outside the solver to the lemmas lemma.* "
+                  "(base and step of each are discharged obligations)")
 
 
 def _remove(lst, z):
@@ -24,120 +28,178 @@ def _remove(lst, z):
             return
 
 
-class PrefixSum:
-    def __init__(self, name, term):
-        """term(L, zi) -> z3 Int expression: the summand contributed by element zi of the SymList L"""
-        self.name = name
-        self.term = term
+class _Fold:
+    """shared machinery: per-path state per (fold, list, version); touched indices; version links"""
+    sort = None
+    linkable = True
+    lazy = False        # string folds: their facts stay out of the feasibility solver (every VC still carries them)
 
-    # ---------------------------------------------------------------- per-path state
-    def state(self, I, L):
+    def fname(self, view):
+        return f"{self.name}[{view.name}]"
+
+    def state(self, I, view):
         folds = I.st.notes.setdefault('folds', {})
-        key = (self.name, L.name)
+        key = (self.name, view.lst.name, view.v)
         s = folds.get(key)
         if s is None:
-            F = z3.Function(f"{self.name}[{L.name}]", z3.IntSort(), z3.IntSort())
-            s = folds[key] = {'F': F, 'touched': []}
+            F = z3.Function(self.fname(view), z3.IntSort(), self.sort())
+            s = folds[key] = {'F': F, 'touched': [], 'view': view}
             I.st.undo_log.append(lambda: folds.pop(key, None))
-            I.st.assume(F(z3.IntVal(0)) == 0)
-            self.emit_lemma(I, L)
+            I.st.assume(F(z3.IntVal(0)) == self.zero(), lazy=self.lazy)
             if INDUCTION_NOTE not in I.st.assumed:
                 I.st.assumed.append(INDUCTION_NOTE)
-            self.touch(I, L, z3.IntVal(0))
-            self.touch(I, L, L.n)
+            self.emit_lemmas(I, view)
+            if view.v > 0 and self.linkable:
+                self.emit_link_lemma(I, view)
+            self.touch(I, view, z3.IntVal(0))
+            self.touch(I, view, view.n)
+            if view.v > 0:
+                # the element written by the mutation that created this version
+                idx, _obj = view.lst.over[view.v - 1]
+                self.unfold(I, view, idx)
         return s
 
-    def emit_lemma(self, I, L):
-        """monotonicity by induction on j >= i:  base F(i) <= F(i);  step: F(i) <= F(j) and the unfolding at j give
-        F(i) <= F(j+1), which needs term(j) >= 0 - proved from the definition of the term, for an arbitrary index"""
-        G = z3.Function(f"{self.name}.lemma", z3.IntSort(), z3.IntSort())
-        i, j = z3.Ints(f"{self.name}.lemma.i {self.name}.lemma.j")
-        tj = self.term(L, j)
-        vcs = I.st.vcs
-        info = {'level': 'sup', 'lemma': f"{self.name}: i <= j -> {self.name}(i) <= {self.name}(j)"}
-        vcs.append(VC(f"lemma.{self.name}.mono_base", 'lemma', [], G(i) <= G(i), info))
-        vcs.append(VC(f"lemma.{self.name}.mono_step", 'lemma',
-                      [i <= j, j >= 0, G(i) <= G(j), G(j + 1) == G(j) + tj], G(i) <= G(j + 1), info))
-
-    def touch(self, I, L, zi):
-        s = I.st.notes['folds'][(self.name, L.name)]
+    def touch(self, I, view, zi):
+        s = self.state(I, view)
         F = s['F']
         zi = z3.simplify(zi)
         for zj in s['touched']:
             if zj.eq(zi):
                 return
-        for zj in s['touched']:
-            I.st.assume(z3.Implies(zj <= zi, F(zj) <= F(zi)))
-            I.st.assume(z3.Implies(zi <= zj, F(zi) <= F(zj)))
         s['touched'].append(zi)
         I.st.undo_log.append(lambda: _remove(s['touched'], zi))
+        self.on_touch(I, view, s, zi)
+        for zj in s['touched'][:-1]:
+            I.st.assume(z3.Implies(zj <= zi, self.leq(F(zj), F(zi))), lazy=self.lazy)
+            I.st.assume(z3.Implies(zi <= zj, self.leq(F(zi), F(zj))), lazy=self.lazy)
+        if view.v > 0 and self.linkable:
+            prev = ListView(view.lst, view.v - 1)
+            idx, _obj = view.lst.over[view.v - 1]
+            ps = self.state(I, prev)
+            self.touch(I, prev, zi)
+            I.st.assume(z3.Implies(z3.And(0 <= zi, zi <= idx), F(zi) == ps['F'](zi)), lazy=self.lazy)
+        if view.v < view.lst.version and self.linkable:
+            self.touch(I, ListView(view.lst, view.v + 1), zi)       # later versions learn about the index too
 
-    # ---------------------------------------------------------------- hooks and models
-    def on_elem(self, I, L, zi):
-        """element zi (0 <= zi < n) comes into existence: instantiate the unfolding there"""
-        s = self.state(I, L)
+    def on_touch(self, I, view, s, zi):
+        pass
+
+    def unfold(self, I, view, zi):
+        """F(zi+1) = F(zi) + term(zi), valid for 0 <= zi < n of this version"""
+        s = self.state(I, view)
         F = s['F']
         zi = z3.simplify(zi)
         key = ('unfolded', zi.get_id())
         if key in s:
             return
-        s[key] = True
+        s[key] = zi
         I.st.undo_log.append(lambda: s.pop(key, None))
-        self.touch(I, L, zi)
-        self.touch(I, L, zi + 1)
-        I.st.assume(F(zi + 1) == F(zi) + self.term(L, zi))
+        self.touch(I, view, zi)
+        self.touch(I, view, zi + 1)
+        I.st.assume(z3.Implies(z3.And(0 <= zi, zi < view.n), F(zi + 1) == self.plus(F(zi), self.term(view, zi))),
+                    lazy=self.lazy)
 
-    def prefix(self, I, L, i):
+    def on_elem(self, I, L, zi):
+        """element zi of the list was read: instantiate the unfolding there, in every version"""
+        for v in range(L.version + 1):
+            self.unfold(I, ListView(L, v), zi)
+
+    def emit_link_lemma(self, I, view):
+        prev = ListView(view.lst, view.v - 1)
+        idx, _obj = view.lst.over[view.v - 1]
+        G1 = z3.Function(f"{self.name}.link.new", z3.IntSort(), self.sort())
+        G0 = z3.Function(f"{self.name}.link.old", z3.IntSort(), self.sort())
+        j = z3.Int(f"{self.name}.link.j")
+        info = {'level': 'sup', 'lemma': f"{self.name}: a list modified at index p keeps {self.name}(i) for i <= p"}
+        I.st.vcs.append(VC(f"lemma.{self.name}.agree_base", 'lemma', [G1(0) == self.zero(), G0(0) == self.zero()],
+                           G1(0) == G0(0), info))
+        I.st.vcs.append(VC(f"lemma.{self.name}.agree_step", 'lemma',
+                           [0 <= j, j < idx, G1(j) == G0(j), G1(j + 1) == self.plus(G1(j), self.term(view, j)),
+                            G0(j + 1) == self.plus(G0(j), self.term(prev, j))],
+                           G1(j + 1) == G0(j + 1), info))
+
+    def whole(self, I, view):
+        s = self.state(I, view)
+        return self.wrap(s['F'](view.n))
+
+    def prefix(self, I, view, i):
         """value of the fold over L[:i]  (python slice semantics for out-of-range i: clamped)"""
         if not is_intlike(i):
             raise Unsupported(f"{self.name}: non-integer bound")
-        s = self.state(I, L)
+        s = self.state(I, view)
         zi = to_zint(i)
-        if I.st.implied(z3.And(zi >= 0, zi <= L.n)):
+        n = view.n
+        if I.st.implied(z3.And(zi >= 0, zi <= n)):
             pos = zi
         else:
-            neg = z3.If(zi + L.n < 0, z3.IntVal(0), zi + L.n)
-            pos = z3.If(zi < 0, neg, z3.If(zi > L.n, L.n, zi))
+            neg = z3.If(zi + n < 0, z3.IntVal(0), zi + n)
+            pos = z3.If(zi < 0, neg, z3.If(zi > n, n, zi))
         pos = z3.simplify(pos)
-        self.touch(I, L, pos)
-        return SInt(s['F'](pos))
-
-    def whole(self, I, L):
-        s = self.state(I, L)
-        return SInt(s['F'](L.n))
+        self.touch(I, view, pos)
+        return self.wrap(s['F'](pos))
 
 
-class PrefixConcat:
-    """S(i) = term(0) ++ ... ++ term(i-1)  (strings), tied to a PrefixSum that measures its length.
-    Axioms: S(0) = "", unfolding at touched elements; lemma instances for touched pairs i <= j:
-    prefixof(S(i), S(j)), and len(S(i)) = F(i).  Both lemmas are proved by induction (base/step obligations)."""
+class PrefixSum(_Fold):
+    sort = staticmethod(z3.IntSort)
 
-    def __init__(self, name, term, length_fold):
+    def __init__(self, name, term, linkable=True):
+        """term(view, zi) -> z3 Int expression: the summand contributed by element zi (must be >= 0: proved)"""
         self.name = name
-        self.term = term                # term(L, zi) -> z3 String
+        self.term = term
+        self.linkable = linkable
+
+    def zero(self):
+        return z3.IntVal(0)
+
+    def plus(self, a, b):
+        return a + b
+
+    def leq(self, a, b):
+        return a <= b
+
+    def wrap(self, z):
+        return SInt(z)
+
+    def emit_lemmas(self, I, view):
+        """monotonicity by induction on j >= i:  base F(i) <= F(i);  step: F(i) <= F(j) and the unfolding at j give
+        F(i) <= F(j+1), which needs term(j) >= 0 - proved from the definition of the term, for an arbitrary index"""
+        G = z3.Function(f"{self.name}.lemma", z3.IntSort(), z3.IntSort())
+        i, j = z3.Ints(f"{self.name}.lemma.i {self.name}.lemma.j")
+        tj = self.term(view, j)
+        info = {'level': 'sup', 'lemma': f"{self.name}: i <= j -> {self.name}(i) <= {self.name}(j)"}
+        I.st.vcs.append(VC(f"lemma.{self.name}.mono_base", 'lemma', [], G(i) <= G(i), info))
+        I.st.vcs.append(VC(f"lemma.{self.name}.mono_step", 'lemma',
+                           [i <= j, j >= 0, G(i) <= G(j), G(j + 1) == G(j) + tj], G(i) <= G(j + 1), info))
+
+
+class PrefixConcat(_Fold):
+    """S(i) = term(0) ++ ... ++ term(i-1)  (strings), tied to a PrefixSum that measures its length"""
+    sort = staticmethod(z3.StringSort)
+    lazy = True
+
+    def __init__(self, name, term, length_fold, linkable=True):
+        self.name = name
+        self.term = term                # term(view, zi) -> z3 String
         self.length_fold = length_fold  # PrefixSum with term = Length(self.term)
+        self.linkable = linkable
 
-    def state(self, I, L):
-        folds = I.st.notes.setdefault('folds', {})
-        key = (self.name, L.name)
-        s = folds.get(key)
-        if s is None:
-            S = z3.Function(f"{self.name}[{L.name}]", z3.IntSort(), z3.StringSort())
-            s = folds[key] = {'S': S, 'touched': []}
-            I.st.undo_log.append(lambda: folds.pop(key, None))
-            I.st.assume(S(z3.IntVal(0)) == z3.StringVal(""))
-            self.emit_lemmas(I, L)
-            if INDUCTION_NOTE not in I.st.assumed:
-                I.st.assumed.append(INDUCTION_NOTE)
-            self.touch(I, L, z3.IntVal(0))
-            self.touch(I, L, L.n)
-        return s
+    def zero(self):
+        return z3.StringVal("")
 
-    def emit_lemmas(self, I, L):
+    def plus(self, a, b):
+        return z3.Concat(a, b)
+
+    def leq(self, a, b):
+        return z3.PrefixOf(a, b)
+
+    def wrap(self, z):
+        return SStr([Sq(z)])
+
+    def emit_lemmas(self, I, view):
         G = z3.Function(f"{self.name}.lemma", z3.IntSort(), z3.StringSort())
         H = z3.Function(f"{self.name}.lemma.len", z3.IntSort(), z3.IntSort())
         i, j = z3.Ints(f"{self.name}.lemma.i {self.name}.lemma.j")
-        tj = self.term(L, j)
+        tj = self.term(view, j)
         vcs = I.st.vcs
         info = {'level': 'sup', 'lemma': f"{self.name}: i <= j -> {self.name}(i) is a prefix of {self.name}(j)"}
         vcs.append(VC(f"lemma.{self.name}.mono_base", 'lemma', [], z3.PrefixOf(G(i), G(i)), info))
@@ -145,49 +207,24 @@ class PrefixConcat:
                       [i <= j, j >= 0, z3.PrefixOf(G(i), G(j)), G(j + 1) == z3.Concat(G(j), tj)],
                       z3.PrefixOf(G(i), G(j + 1)), info))
         info2 = {'level': 'sup', 'lemma': f"len({self.name}(i)) == {self.length_fold.name}(i)"}
-        vcs.append(VC(f"lemma.{self.name}.mono_len_base", 'lemma',
+        vcs.append(VC(f"lemma.{self.name}.len_base", 'lemma',
                       [G(0) == z3.StringVal(""), H(0) == 0], z3.Length(G(0)) == H(0), info2))
-        vcs.append(VC(f"lemma.{self.name}.mono_len_step", 'lemma',
+        vcs.append(VC(f"lemma.{self.name}.len_step", 'lemma',
                       [j >= 0, z3.Length(G(j)) == H(j), G(j + 1) == z3.Concat(G(j), tj),
-                       H(j + 1) == H(j) + self.length_fold.term(L, j)],
+                       H(j + 1) == H(j) + self.length_fold.term(view, j)],
                       z3.Length(G(j + 1)) == H(j + 1), info2))
 
-    def touch(self, I, L, zi):
-        s = I.st.notes['folds'][(self.name, L.name)]
-        S = s['S']
-        zi = z3.simplify(zi)
-        for zj in s['touched']:
-            if zj.eq(zi):
-                return
-        ls = self.length_fold.state(I, L)
-        self.length_fold.touch(I, L, zi)
-        I.st.assume(z3.Length(S(zi)) == ls['F'](zi))
-        for zj in s['touched']:
-            I.st.assume(z3.Implies(zj <= zi, z3.PrefixOf(S(zj), S(zi))))
-            I.st.assume(z3.Implies(zi <= zj, z3.PrefixOf(S(zi), S(zj))))
-        s['touched'].append(zi)
-        I.st.undo_log.append(lambda: _remove(s['touched'], zi))
+    def on_touch(self, I, view, s, zi):
+        ls = self.length_fold.state(I, view)
+        self.length_fold.touch(I, view, zi)
+        I.st.assume(z3.Implies(z3.And(0 <= zi, zi <= view.n), z3.Length(s['F'](zi)) == ls['F'](zi)), lazy=True)
 
-    def on_elem(self, I, L, zi):
-        s = self.state(I, L)
-        S = s['S']
-        zi = z3.simplify(zi)
-        key = ('unfolded', zi.get_id())
-        if key in s:
-            return
-        s[key] = True
-        I.st.undo_log.append(lambda: s.pop(key, None))
-        self.length_fold.on_elem(I, L, zi)
-        self.touch(I, L, zi)
-        self.touch(I, L, zi + 1)
-        I.st.assume(S(zi + 1) == z3.Concat(S(zi), self.term(L, zi)))
-
-    def whole(self, I, L):
-        from .values import SStr, Sq
-        s = self.state(I, L)
-        return SStr([Sq(s['S'](L.n))])
+    def unfold(self, I, view, zi):
+        self.length_fold.unfold(I, view, zi)
+        _Fold.unfold(self, I, view, zi)
 
 
+# ------------------------------------------------------------------------------------------- models
 def locate_model(fold, field):
     """spec function  f(L, pos): the value of `field` of the element k whose summand interval contains pos
     (fold(k) <= pos < fold(k+1)), None when pos is outside [0, fold(n)).
@@ -199,7 +236,8 @@ def locate_model(fold, field):
             return NotImplemented
         if not is_intlike(pos):
             raise Unsupported("locate: non-integer position")
-        s = fold.state(I, L)
+        view = ListView(L)
+        s = fold.state(I, view)
         F = s['F']
         zp = to_zint(pos)
         if 'locate_lemma' not in s:
@@ -207,37 +245,28 @@ def locate_model(fold, field):
             I.st.undo_log.append(lambda: s.pop('locate_lemma', None))
             G = z3.Function(f"{fold.name}.locate", z3.IntSort(), z3.IntSort())
             j, K, p = z3.Ints(f"{fold.name}.locate.j {fold.name}.locate.K {fold.name}.locate.p")
-            tj = fold.term(L, j)
+            tj = fold.term(view, j)
             inst = lambda k, m: z3.And(0 <= k, k < m, G(k) <= p, p < G(k + 1))      # noqa
-            info = {'level': 'sup', 'lemma': f"0 <= p < {fold.name}(m)  ->  exists k < m: {fold.name}(k) <= p < {fold.name}(k+1)"}
-            I.st.vcs.append(VC(f"lemma.{fold.name}.locate_base", 'lemma', [G(0) == 0], z3.Not(z3.And(0 <= p, p < G(0))), info))
+            info = {'level': 'sup',
+                    'lemma': f"0 <= p < {fold.name}(m)  ->  exists k < m: {fold.name}(k) <= p < {fold.name}(k+1)"}
+            I.st.vcs.append(VC(f"lemma.{fold.name}.locate_base", 'lemma', [G(0) == 0],
+                               z3.Not(z3.And(0 <= p, p < G(0))), info))
             I.st.vcs.append(VC(f"lemma.{fold.name}.locate_step", 'lemma',
                                [j >= 0, G(j + 1) == G(j) + tj, z3.Implies(z3.And(0 <= p, p < G(j)), inst(K, j)),
                                 0 <= p, p < G(j + 1)],
                                z3.Or(inst(K, j + 1), inst(j, j + 1)), info))
-        if not I.branch(z3.And(zp >= 0, zp < F(L.n))):
+        if not I.branch(z3.And(zp >= 0, zp < F(view.n))):
             return None
         k = I.st.fresh_int(f"{fold.name}.at")
-        I.st.assume(z3.And(0 <= k, k < L.n))
-        from .models import symlist_elem
-        e = symlist_elem(I, L, k)          # instantiates the unfolding at k
+        I.st.assume(z3.And(0 <= k, k < view.n))
+        fold.unfold(I, view, k)
+        for v in range(view.v):
+            fold.unfold(I, ListView(L, v), k)
         I.st.assume(z3.And(F(k) <= zp, zp < F(k + 1)))
-        return e.fields[field]
+        from .models import symlist_generic_elem
+        return symlist_generic_elem(I, L, k).fields[field]
     model.fold = fold
     return model
-
-
-def install(config, models):
-    """models: {spec function name: callable(I, args) -> value}; hooks are collected from PrefixSum owners"""
-    config['symlist_models'] = dict(models)
-    hooks = []
-    seen = set()
-    for fn in models.values():
-        owner = getattr(fn, 'fold', None)
-        if owner is not None and id(owner) not in seen:
-            seen.add(id(owner))
-            hooks.append(owner.on_elem)
-    config['symlist_hooks'] = hooks
 
 
 def prefix_model(fold):
@@ -245,7 +274,7 @@ def prefix_model(fold):
         L, i = args
         if not isinstance(L, SymList):
             return NotImplemented
-        return fold.prefix(I, L, i)
+        return fold.prefix(I, ListView(L), i)
     model.fold = fold
     return model
 
@@ -255,6 +284,77 @@ def whole_model(fold):
         (L,) = args
         if not isinstance(L, SymList):
             return NotImplemented
-        return fold.whole(I, L)
+        return fold.whole(I, ListView(L))
     model.fold = fold
     return model
+
+
+def install(config, models):
+    """models: {spec function name: callable(I, args) -> value}; hooks are collected from the folds they use"""
+    config['symlist_models'] = dict(models)
+    folds = []
+    for fn in models.values():
+        owner = getattr(fn, 'fold', None)
+        while owner is not None and all(owner is not f for f in folds):
+            folds.append(owner)
+            owner = getattr(owner, 'length_fold', None)
+    config['folds'] = folds
+    # a PrefixConcat unfolds its length fold itself
+    covered = {id(f.length_fold) for f in folds if isinstance(f, PrefixConcat)}
+    config['symlist_hooks'] = [f.on_elem for f in folds if id(f) not in covered]
+
+
+# ------------------------------------------------------------------------------------------- folds met in code
+def _matching(I, m, cls):
+    """a registered fold whose term is the element expression of the generator m; else a fold made for it"""
+    e = z3.simplify(m.expr)
+    for f in I.config.get('folds', []):
+        if isinstance(f, cls):
+            try:
+                t = z3.simplify(f.term(m.src, m.j))
+            except Exception:      # noqa
+                continue
+            if t.eq(e):
+                return f
+    dyn = I.st.notes.setdefault('dyn_folds', {})
+    key = (cls.__name__, hashlib.sha1(e.sexpr().replace(str(m.j), '#j').encode()).hexdigest()[:10])
+    f = dyn.get(key)
+    if f is None:
+        term = (lambda view, zi, m=m: z3.substitute(m.expr, (m.j, zi)))
+        if cls is PrefixSum:
+            f = PrefixSum('sum#' + key[1], term, linkable=False)
+        else:
+            lf = PrefixSum('len#' + key[1], lambda view, zi, m=m: z3.Length(z3.substitute(m.expr, (m.j, zi))),
+                           linkable=False)
+            f = PrefixConcat('cat#' + key[1], term, lf, linkable=False)
+        dyn[key] = f
+    return f
+
+
+def sum_of(I, m):
+    if m.src is None or m.kind != 'int':
+        raise Unsupported("sum() of a generator over a symbolic range / of non-integers")
+    s0 = z3.Solver()
+    s0.set('timeout', 2000)
+    s0.add(z3.And(m.lo <= m.j, m.j < m.hi), m.expr < 0)
+    if s0.check() != z3.unsat:
+        raise Unsupported("sum() over a list of symbolic length with summands not known to be non-negative")
+    return _matching(I, m, PrefixSum).whole(I, m.src)
+
+
+def join_of(I, m):
+    if m.src is None or m.kind != 'str':
+        raise Unsupported("join of a generator over a symbolic range / of non-strings")
+    return _matching(I, m, PrefixConcat).whole(I, m.src)
+
+
+def forall(m):
+    from . import explore
+    explore.QUANTIFIERS_IN_USE[0] = True
+    return z3.ForAll([m.j], z3.Implies(z3.And(m.lo <= m.j, m.j < m.hi), m.expr))
+
+
+def exists(m):
+    from . import explore
+    explore.QUANTIFIERS_IN_USE[0] = True
+    return z3.Exists([m.j], z3.And(m.lo <= m.j, m.j < m.hi, m.expr))
